@@ -234,6 +234,11 @@ var alphabet = map[string][]string{
 
 var withSubMs = false // set for C01 / C17 (not C02)
 
+// parseable texts that differ from the library's own rendering; they enter through FromBytes only
+var nonCanonical = map[string][]string{
+	"Float": {"1.50", "100.00", "0.10", "+7", "1e3", "-0.0", "007.250"},
+}
+
 func valuesFor(typ string, t *tmpl) []string {
 	vs := append([]string{}, alphabet[typ]...)
 	if typ == "Time" && withSubMs {
